@@ -1184,6 +1184,11 @@ class Container:
         xs = numpy.linalg.solve(a[:n + 1], b[:n + 1])
         if any(x <= 0 for x in xs):
             raise ValueError("Solution is impossible to create.")
+        # an amount that vanishes when stored (rounded to the internal precision) is not a solution either
+        for x, substance in zip(xs, solute + [solvent]):
+            stored = round(x, config.internal_precision) if substance.is_enzyme() else Unit.convert_to_storage(x, 'mol')
+            if stored <= 0:
+                raise ValueError("Solution is impossible to create.")
 
         for i in range(len(a)):
             if abs(sum(a[i] * xs) - b[i]) > 1e-6:
